@@ -296,7 +296,7 @@ PURITY = {
     # programs: how many programs of the (shuffled) tier corpus are twin-run; max_runs: branch
     # vectors per program; gc_every: full retention check (gc.collect + weakrefs) every n-th twin
     "tiny": dict(programs=36, max_runs=4, gc_every=8, deadline=20.0),
-    "quick": dict(programs=70, max_runs=6, gc_every=8, deadline=36.0),
+    "quick": dict(programs=50, max_runs=6, gc_every=8, deadline=36.0),
     "thorough": dict(programs=1000, max_runs=12, gc_every=1, deadline=430.0),
 }
 
